@@ -248,6 +248,8 @@ package parse
 //@ func scanNumber
 //@   props C05
 //@   requires lexerOK(l)
+//@   at call (*lexer).accept#3 assert[exponent-marker;C17] bytesare(arg1, "e")
+//@   at call (*lexer).accept#4 assert[exponent-sign-as-the-printer-writes-it;C17] bytesare(arg1, "+-")
 //@   modifies l.pos, l.width
 //@   ensures lexerOK(l) && l.pos >= old(l.pos) && (ok ==> l.pos > old(l.pos))
 
